@@ -1,5 +1,5 @@
 """C08 — primitive text forms are lossless and lie in the XSD lexical space."""
-import os, sys, json, decimal
+import os, sys, re, json, decimal
 import lib
 from lib import gz, gtext, glist, gbool, gopt, gpair
 
@@ -580,6 +580,27 @@ def family_binary(check, tier):
             check.count(('binr', nm, s))
         lib.correspond(check, 'bin_read_' + nm, DT_IMPORTS, 'text * out (list Z)',
                        '(fun c => bout_eqb (%s (fst c)) (snd c))' % cdec, rc, show='(fun c : text * out (list Z) => %s (fst c))' % cdec)
+    # in-lex oracle: every literal lxml accepts as xs:base64Binary (line-wrapped MIME/PEM style, blanks
+    # between the groups) must be read as the bytes it denotes
+    import base64 as _b64
+    for b in blobs[:60]:
+        t = _b64.b64encode(b).decode('ascii')
+        variants = set()
+        for w in (4, 64, 76):
+            variants.add('\n'.join(t[i:i + w] for i in range(0, len(t), w)))
+            variants.add('\r\n'.join(t[i:i + w] for i in range(0, len(t), w)))
+        variants.add(' '.join(t[i:i + 4] for i in range(0, len(t), 4)))
+        variants.add(' ' + t + '\n')
+        variants.add('\t' + t)
+        for v in sorted(variants):
+            if v == t or not xsd_ok('base64Binary', v):
+                continue
+            o = observe(prot.from_unicode, ByteArray, v, BINARY_ENCODING_BASE64)
+            check.count(('binlex', v))
+            if o[0] != 'ok' or b''.join(o[1]) != b:
+                check.fail('C08|ByteArray|in_lex|base64-whitespace',
+                           'xs:base64Binary literal %r (valid per XSD) read as %r instead of %r' % (v[:40], o, b[:16]),
+                           {'text': v, 'bytes': list(b)})
     check.sample({'family': 'binary', 'blobs': [list(b) for b in blobs[1:4]], 'malformed': mal[:8]})
 
 
@@ -666,17 +687,24 @@ def run(check):
                   'distinct by (operation, type, input)')
     check.trusted = list(lib.COMMON_TRUSTED) + [
         'translator harness/translate/numtypes.py (validate_native / validate_string / Attributes of number models -> Gen/NumTypes.v)',
+        'translator harness/translate/tokens.py (decisive tokens - constants, operators, called methods, except clauses - of the '
+        'modelled *_to_unicode / *_from_unicode / ByteArray codec functions and the date/time/duration regular expressions '
+        '-> Gen/Tokens.v, pinned by the Examples of coq/C08/Pins.v to what the hand-written models transcribe)',
         'modelled, not verified: CPython int()/str() on text, lxml XMLSchema simple-type validation (used as the XSD oracle)',
     ]
     check.assumptions = ['Decimal, Double (finite values: CPython shortest-repr round trip), Uuid, Unicode and AnyUri are decided by the direct oracle only (standard-library codecs, not modelled in Coq)',
                          'Unicode decimal digits other than ASCII are outside the modelled int() universe',
                          'str_format/format customisations are opaque (default formats only)']
-    check.regen(['numtypes'])
+    check.regen(['numtypes', 'tokens'])
     check.check_sources()
     check.prove('Props.C08', THEOREMS)
     check.prove('Props.C08_dt', THEOREMS_DT)
     check.prove('Props.C08_dur', THEOREMS_DUR)
     check.prove('Props.C08_bin', THEOREMS_BIN)
+    # decisive tokens of the modelled codec functions and the regular expressions, regenerated from
+    # the source on every run (Gen/Tokens.v), pinned to what the models transcribe (C08/Pins.v)
+    pins = re.findall(r'^Example (pin_\w+)', open(os.path.join(lib.COQ, 'C08', 'Pins.v')).read(), re.M)
+    check.prove('C08.Pins', pins)
     family_int(check, tier)
     family_datetime(check, tier)
     family_duration(check, tier)
